@@ -405,8 +405,9 @@ class SeedFailureMonitor(FailureMonitor):
           only entries of variables relevance declared irrelevant.
       hollow = 'self' / 'below': the failing solver's group / a group below it is relevant for the active seeds as a
           SYSTEM while none of its components is (see report_failure); False: no such group; None: unknown
-      matrix-free-only (block solvers, rev, irrelevant-only residual): True if every unconverged entry is an output
-          read by a relevant matrix-free component
+      matrix-free-only (rev; block solvers with irrelevant-only residual: the unconverged entries; ScipyKrylov: the
+          entries of its true final residual that belong to variables irrelevant for the active seeds): True if there
+          are such entries and every one is an output read by a relevant matrix-free component
     mon.floor_failures: linear-solver reports whose last monitored residual is at round-off level (see FLOOR_REL)."""
 
     def __init__(self):
@@ -432,11 +433,13 @@ class SeedFailureMonitor(FailureMonitor):
         self._orig_kmatvec = ScipyKrylov.__dict__['_mat_vec']
         self._kb = {}
         self._kax = {}
+        self._kmode = {}
 
         def ksolve(slf, mode, rel_systems=None):
             sys_ = slf._system()
             bvec = sys_._dresiduals if mode == 'fwd' else sys_._doutputs
             mon._kb[id(slf)] = bvec.asarray(True)
+            mon._kmode[id(slf)] = mode
             mon._kax.pop(id(slf), None)
             return mon._orig_ksolve(slf, mode, rel_systems)
 
@@ -501,25 +504,24 @@ class SeedFailureMonitor(FailureMonitor):
                     tot = float(np.sum(np.abs(r) ** 2))
                     irr_only = bool(tot > 0.0 and rr <= 1e-16 * tot)
                     if irr_only and slf._mode == 'rev':
-                        # is every unconverged (irrelevant) entry an output that a RELEVANT MATRIX-FREE component
-                        # reads?  (its compute_jacvec_product / apply_linear fills d_inputs of that input - it cannot
-                        # know that the input is irrelevant for the active seeds - and the reverse transfer carries
-                        # the value into the right-hand side of a solver that skips the output's component)
-                        root = sys_._problem_meta['model_ref']()
-                        readers = {}
-                        for inp, src in root._conn_global_abs_in2out.items():
-                            readers.setdefault(src, []).append(inp.rpartition('.')[0])
-                        mf_only = True
-                        for n in vec._views:
-                            a, b = vec.get_range(n)
-                            if float(np.sum(np.abs(r[a:b]) ** 2)) > 1e-16 * tot:
-                                ok = False
-                                for cpath in readers.get(n, ()):
-                                    comp = root._get_subsystem(cpath)
-                                    if comp is not None and comp.matrix_free and relsys(rel, cpath):
-                                        ok = True
-                                        break
-                                mf_only = mf_only and ok
+                        mf_only = _read_by_matrix_free(sys_, rel, relsys, [
+                            n for n in vec._views
+                            if float(np.sum(np.abs(r[slice(*vec.get_range(n))]) ** 2)) > 1e-16 * tot])
+                elif isinstance(slf, ScipyKrylov) and mon._kmode.get(id(slf)) == 'rev' and \
+                        mon._kb.get(id(slf)) is not None and mon._kax.get(id(slf)) is not None:
+                    # gmres minimises the norm of the whole residual, so an inconsistent row (a variable that is
+                    # irrelevant for the active seeds: its own diagonal block is pruned, the column of the
+                    # matrix-free component that reads it is not) also spoils the relevant rows - the evidence is
+                    # the set of irrelevant variables in which the TRUE final residual b - A x is not zero
+                    vec = sys_._doutputs
+                    bb, ax = mon._kb[id(slf)], mon._kax[id(slf)]
+                    if bb.shape == vec.asarray().shape == ax.shape:
+                        r = bb - ax
+                        rmax = float(np.max(np.abs(r))) if r.size else 0.0
+                        irr = [n for n in vec._views if not relvar(rel, n) and
+                               float(np.max(np.abs(r[slice(*vec.get_range(n))]), initial=0.0)) > 1e-8 * rmax]
+                        if irr and rmax > 0.0:
+                            mf_only = _read_by_matrix_free(sys_, rel, relsys, irr)
             except Exception:
                 if os.environ.get('OMV_DEBUG'):
                     import traceback
@@ -583,6 +585,29 @@ class SeedFailureMonitor(FailureMonitor):
         return super().__exit__(*a)
 
 
+def _read_by_matrix_free(sys_, rel, relsys, names):
+    """True if every output in `names` is read by a matrix-free component that is relevant for the active seeds (its
+    compute_jacvec_product / apply_linear fills d_inputs of that input - it cannot know that the input is irrelevant
+    for the active seeds - and the reverse transfer carries the value into the right-hand side of a solver that skips
+    the output's component)."""
+    root = sys_._problem_meta['model_ref']()
+    readers = {}
+    for inp, src in root._conn_global_abs_in2out.items():
+        readers.setdefault(src, []).append(inp.rpartition('.')[0])
+    if not names:
+        return False
+    for n in names:
+        ok = False
+        for cpath in readers.get(n, ()):
+            comp = root._get_subsystem(cpath)
+            if comp is not None and comp.matrix_free and relsys(rel, cpath):
+                ok = True
+                break
+        if not ok:
+            return False
+    return True
+
+
 def _fail_class(failures, src2spec, dep):
     """Classify solver failures that only the relevance-enabled twin reports.
     A failure is a dead-seed failure if every seed active at that moment has NO counterpart among the seeds of the
@@ -600,7 +625,8 @@ def _fail_class(failures, src2spec, dep):
                               the active seeds as a system although none of its components is: its linear solver is
                               called with a right-hand side (put there by a matrix-free component that fills d_inputs
                               of an input which is irrelevant for the seed pair) that nothing in the group works on
-      live-seed:matrix-free-into-irrelevant-output   ... otherwise, and (block solvers, rev) what did not converge are
+      live-seed:matrix-free-into-irrelevant-output   ... otherwise, and (rev) what did not converge (block solvers) /
+                              the irrelevant part of the final residual (ScipyKrylov) are
                               only entries of outputs that are irrelevant for the active seeds and are read by a
                               relevant matrix-free component (which fills d_inputs of that input; the reverse transfer
                               carries the value into a relevant group - run-once, approximated, ... - next to the
@@ -2015,9 +2041,12 @@ def _case_hist(case, acc):
         if off['nfail'][i]:
             stop = 'solver-nonconvergence'
             break
+        step_fc = None
         if on['nfail'][i]:
             fl = on['failures'][sum(on['nfail'][:i]):sum(on['nfail'][:i + 1])]
             fc = _fail_class(fl, on.get('src2spec', {}), dep)
+            if fc.startswith('live-seed'):
+                step_fc = (fc, '+'.join(sorted(set(f[0] for f in fl))))
             bad.append(('SOLVERFAIL|%s|%s' % (fc, '+'.join(sorted(set(f[0] for f in fl)))),
                         '%d solver failure report(s) in step %d (%s) with relevance enabled, none with relevance '
                         'disabled: %s' % (len(fl), i, st.get('api') or op, fl[0][1][:160])))
@@ -2095,6 +2124,11 @@ def _case_hist(case, acc):
                 what = 'wrong-totals-%s:%s' % (st['api'], where)
                 if cls == 'seq':
                     what += ':' + pos
+                if step_fc is not None:
+                    # a solver reported (real, not round-off level) non-convergence for a live seed in this very
+                    # step, only in the enabled twin: the wrong totals are the consequence of that failure (a failed
+                    # gmres leaves its last iterate in the solution vector) - keyed under the failure class
+                    what = 'AFTERFAIL|%s|%s' % step_fc
                 bad.append((what, 'step %d: totals (%s, of=%s wrt=%s) differ from the closed form (max abs %.3e) / '
                             'the disabled twin (max abs %.3e)' % (i, st['api'], [o['name'] for o in st['of']], wn,
                                                                   float(np.nanmax(np.abs(Ja - Jr_on))),
@@ -2165,6 +2199,9 @@ def _case_hist(case, acc):
             if what.startswith('SOLVERFAIL|'):
                 w = what.split('|')
                 key = '%s:solver-fails-only-with-relevance:hist-%s:%s' % (w[1], cls, w[2])
+            elif what.startswith('AFTERFAIL|'):
+                w = what.split('|')
+                key = '%s:wrong-totals-after-solver-failure:hist-%s:%s' % (w[1], cls, w[2])
             else:
                 key = KEY(what)
             acc.viol(key, msg + ' [%s; %s; %d systems pruned]' % (','.join(tags), json.dumps(info, sort_keys=True), ps),
